@@ -549,6 +549,8 @@ impl Wal {
             // the log: cut it off, or the new record would land behind it where no reader finds it.
             let valid_end = Self::valid_end(&self.path)?;
             if file.metadata()?.len() > valid_end {
+                #[cfg(nervusdb_verif)]
+                crate::verif_io::step("wal_trunc", &self.path, valid_end, 0)?;
                 file.set_len(valid_end)?;
             }
             self.tail_checked = true;
